@@ -68,14 +68,17 @@ func c19(c *Ctx) {
 		okMsg := false
 		if al, ok := sd.X.(*ssa.Alloc); ok {
 			vals, _ := allocStores(al)
-			okMsg = termOrNil(vals["vaa"]) == "v" && bound["v"] == "v" || termOrNil(vals["vaa"]) == "v" && strings.HasSuffix(bound["v"], "v")
-			okMsg = okMsg && termOrNil(vals["serialized"]) == "serializedVaa"
+			// (a captured variable renders as `x` or, when it lives in a cell shared with the
+			// enclosing function, as `local:x`)
+			same := func(t, name string) bool { return t == name || t == "local:"+name }
+			okMsg = same(termOrNil(vals["vaa"]), "v") && same(bound["v"], "v")
+			okMsg = okMsg && same(termOrNil(vals["serialized"]), "serializedVaa")
 		}
-		R.Check("C19.gate", R.Key("C19.gate", shortFn(sd.Fn), "message"), pos, "the queued message carries the verified VAA and its serialized bytes", okMsg, fmt.Sprintf("bindings %v", bound))
+		R.Check("C19.gate", R.Key("C19.gate", shortFn(sd.Fn), "message"), pos, "the queued message carries the verified VAA and its serialized bytes", okMsg, fmt.Sprintf("bindings %v; message fields %v", bound, c19vals(sd.X)))
 		R.Check("C19.gate", R.Key("C19.gate", shortFn(sd.Fn), "nonblocking"), pos, "the hand-off is a select with default (a full queue does not block)", sd.InSelect && !sd.Blocking, "blocking send")
 		// closure returns nil only when the send case was taken
 		for _, r := range acceptingReturns(sd.Fn) {
-			fsr := facts.Atoms(facts.At(r, nil))
+			fsr := facts.Atoms(acceptFacts(r))
 			R.Check("C19.gate", R.Key("C19.gate", shortFn(sd.Fn), "return:nil"), c.rel(p.Pos(instrPos(r))), "the callback reports success only when the message was queued", len(fsr) == 1 && fsr[0] == "0 == select#0", strings.Join(fsr, ";"))
 		}
 		R.Sample(map[string]any{"sink": "messageQueue <- message", "inherited_facts": facts.Atoms(fs)})
@@ -83,7 +86,7 @@ func c19(c *Ctx) {
 	R.Floor("C19.gate", n, 1)
 	// verifyVAA summary
 	for _, r := range acceptingReturns(verify) {
-		fs := facts.At(r, nil)
+		fs := acceptFacts(r)
 		c.checkFacts(p, "C19.gate", verify, "return:nil", r, fs, []req{
 			{Name: "keys non-nil", Pred: func(a string) bool { return a == "addresses != nil" }},
 			{Name: "signatures non-empty", Pred: func(a string) bool { return a == "0 != len(v.Signatures)" }},
@@ -261,4 +264,15 @@ func c19(c *Ctx) {
 type ssaField struct {
 	v    *types.Var
 	name string
+}
+
+func c19vals(v ssa.Value) map[string]string {
+	out := map[string]string{}
+	if al, ok := v.(*ssa.Alloc); ok {
+		vals, _ := allocStores(al)
+		for k, x := range vals {
+			out[k] = termOrNil(x)
+		}
+	}
+	return out
 }
